@@ -120,6 +120,19 @@ func c20SameArgs(a, b *c20Call) bool {
 	return same
 }
 
+// c20Canon: b without its trailing zero bytes (what HMAC makes of a key of up
+// to one hash block).
+func c20Canon(b []byte) []byte {
+	if len(b) > 64 {
+		panic("c20: passphrases longer than the HMAC block size are not modelled")
+	}
+	n := len(b)
+	for n > 0 && b[n-1] == 0 {
+		n--
+	}
+	return b[:n]
+}
+
 // c20Eq: byte-string equality without branching per byte.
 func c20Eq(a, b []byte) bool {
 	if len(a) != len(b) {
@@ -146,10 +159,12 @@ func c20Ideal(prim string, c c20Call, lo, hi, lo2, hi2 int) {
 	}
 	for i := range c20Calls[prim] {
 		o := &c20Calls[prim][i]
-		if !c20SameShape(o, &c) {
-			continue
+		same := false
+		if c20SameShape(o, &c) {
+			same = c20SameArgs(o, &c)
+		} else if prim != "kdf" {
+			continue // calls of different shape are only related for the KDF (passphrases of different length)
 		}
-		same := c20SameArgs(o, &c)
 		if len(o.out) >= hi && len(c.out) >= hi && hi > lo {
 			vs.Assume(c20Or(same, !c20Eq(o.out[lo:hi], c.out[lo:hi])))
 		}
@@ -204,7 +219,10 @@ func c20KDFOut(name string, password, salt []byte, keyLen int, nums ...uint64) [
 	dk := make([]byte, 0, numBlocks*32)
 	dk = dk[:numBlocks*32]
 	if numBlocks > 0 {
-		pass := c20Lookup(string(password))
+		// HMAC pads its key with zero bytes to the hash block size: passwords that
+		// differ only in trailing zero bytes are the same key (modelled for
+		// passwords of up to 64 bytes, the SHA-256 block size)
+		pass := c20Canon(c20Lookup(string(password)))
 		for len(nums) < 3 {
 			nums = append(nums, 0)
 		}
